@@ -140,6 +140,7 @@ def blocks(tier):
     out = [{"space": "range", "tier": tier, "combos": c} for c in chunk(combos, 48)]
     axes = [(a, b, n) for a in STARTS[tier] for b in STEPS[tier] for n in INDEX_NS[tier]]
     out += [{"space": "index", "axes": c} for c in chunk(axes, 8)]
+    out.append({"space": "index_irregular"})
     systems = []
     for lat in write_lats(tier):
         for shape in write_shapes(tier):
@@ -186,6 +187,9 @@ def run_block(block, rec):
                             else:
                                 case["samplerate"] = 7 if sr != 7 else 9  # must be ignored: step takes precedence
                         rec.add(run_range(case))
+    elif sp == "index_irregular":
+        for name in IRREGULAR:
+            rec.add(run_index({"space": "index", "irregular": name}))
     elif sp == "index":
         for start, step, n in block["axes"]:
             rec.add(run_index({"space": "index", "start": start, "step": step, "n": n}))
@@ -341,14 +345,32 @@ def call_index(arr, dim, v, re_):
     return ["badtype", repr(r)]
 
 
+IRREGULAR = {
+    "octaves": [62.5, 125.0, 250.0, 500.0, 1000.0, 2000.0, 4000.0, 8000.0],
+    "thirds": [0.1, 0.3, 0.30000000000000004, 0.7, 1.9, 2.0, 59.94],
+    "squares": [0.0, 1.0, 4.0, 9.0, 16.0, 25.0, 36.0, 49.0, 64.0, 81.0, 100.0, 121.0],
+    "two": [-3.0, 22050.5],
+}
+
+
 def run_index(case):
     out = Out(case)
+    if case.get("irregular"):
+        # a strictly increasing axis that is not regularly spaced (band edges, event times): the look-up is defined by the coordinates
+        coords = list(IRREGULAR[case["irregular"]])
+        start, n = coords[0], len(coords)
+        step = min(b - a for a, b in zip(coords, coords[1:]))
+        return _run_index_on(out, coords, step, n, [xr.DataArray(np.zeros(n), dims=["x"], coords={"x": np.array(coords)})])
     start, step, n = case["start"], case["step"], case["n"]
     coords = am.lattice_floats(start, step, n)
     arrs = [make_axis_array(coords, step), make_axis_array(coords, step, attrs=False)]
     if all(float(c) == int(c) for c in coords):
         # the same axis with integer-typed coordinates (frame / sample numbers, possibly negative): queries keep their own type
         arrs.append(make_axis_array(np.array([int(c) for c in coords], dtype=np.int64), step))
+    return _run_index_on(out, coords, step, n, arrs)
+
+
+def _run_index_on(out, coords, step, n, arrs):
     calls = 0
     bad = 0
     queries = []
